@@ -71,6 +71,13 @@ def jobs(tier):
                     "props": ["exactly_once", "results", "nodeadlock", "stopped_clean", "no_run_after_stop", "bounded", "fifo"],
                     "window_at": k, "twin_prog": "progress"}
             out.append((dict(base, name="c11-lifecycle-max{0}min{1}-op{2}".format(mx, mn, k)), full))
+    if thorough:
+        # the same windows reached through a second history (workers scheduled first in the prefix)
+        extra = []
+        for spec, regime in out:
+            if regime["name"] == "all-interleavings" and spec.get("window_at", 0) >= 1 and not spec.get("hold"):
+                extra.append((dict(spec, name=spec["name"] + "-wf", prefix_order="workers_first"), regime))
+        out += extra
     return out
 
 
